@@ -1415,6 +1415,9 @@ class ContactHandler(Messenger, dbus.service.Object):
     @dbus.service.method(DBUS_IFACE, in_signature='', out_signature='')
     def close(self):
         ''' Close the TCP connection immediately. '''
+        # transfers which can no longer start are reported, not silently dropped
+        self._tx_flush_pend_start()
+
         if tuple(self.locations):
             self.remove_from_connection()
 
